@@ -549,6 +549,9 @@ func NewPostDom(fn *ssa.Function) *PostDom {
 	return pd
 }
 
+// Ipdom returns the immediate post-dominator of b (nil for the virtual exit).
+func (pd *PostDom) Ipdom(b *ssa.BasicBlock) *ssa.BasicBlock { return pd.ipdom[b] }
+
 // PostDominates reports whether a post-dominates b (a == b counts).
 func (pd *PostDom) PostDominates(a, b *ssa.BasicBlock) bool {
 	for x := b; x != nil; x = pd.ipdom[x] {
